@@ -17,6 +17,10 @@ let rec pairs_of_list = function a :: b :: r -> (a, b) :: pairs_of_list r | [] -
 let prows_of_tok t = List.map (fun r -> pairs_of_list (zlist_of_tok r)) (String.split_on_char ';' t)
 let tok_prows rows = String.concat ";" (List.map (fun r -> tok_of_zlist (List.concat_map (fun (a, b) -> [a; b]) r)) rows)
 
+(* stack of TMCG_Card: cards separated by '/', each card as rows *)
+let tcards_of_tok t = if t = "_" then [] else List.map rows_of_tok (String.split_on_char '/' t)
+let tok_tcards cs = if cs = [] then "_" else String.concat "/" (List.map tok_rows cs)
+
 let () =
   register "enc62" (function [z; out] -> (tok_of_bytes (encode62 (z_of_hex z)), out) | _ -> failwith "arity");
   register "dec62" (function [s; out] -> (opt hex_of_z (decode62 (bytes_of_tok s)), out) | _ -> failwith "arity");
@@ -28,6 +32,8 @@ let () =
   register "tcard_imp" (function [s; out] -> (opt tok_rows (import_tcard (bytes_of_tok s)), out) | _ -> failwith "arity");
   register "tsec_exp" (function [rows; out] -> (tok_of_bytes (export_tsecret (prows_of_tok rows)), out) | _ -> failwith "arity");
   register "tsec_imp" (function [s; out] -> (opt tok_prows (import_tsecret (bytes_of_tok s)), out) | _ -> failwith "arity");
+  register "tstack_exp" (function [cs; out] -> (tok_of_bytes (export_tstack (tcards_of_tok cs)), out) | _ -> failwith "arity");
+  register "tstack_imp" (function [old; s; out] -> (opt tok_tcards (import_tstack (tcards_of_tok old) (bytes_of_tok s)), out) | _ -> failwith "arity");
   register "vstack_exp" (function [cs; out] -> (tok_of_bytes (export_vstack (cards_of_tok cs)), out) | _ -> failwith "arity");
   register "vstack_imp" (function [old; s; out] -> (opt tok_cards (import_vstack (cards_of_tok old) (bytes_of_tok s)), out) | _ -> failwith "arity");
   register "vss_exp" (function [ps; out] -> (tok_of_bytes (export_vstacksecret (pairs_of_tok ps)), out) | _ -> failwith "arity");
